@@ -5,8 +5,11 @@
     answers [None] when the lengths differ).  [None] always stands for a panic of the real code
     (failed [assert!], slice index out of bounds, [debug_assert!] of the reader at end of input),
     or — for [write_loop] only — for exhausted fuel, which the theorems exclude.
-    Extents, indices and offsets are unbounded [N] (no [usize] overflow: the property quantifies over
-    small shapes), elements are an arbitrary type [A].  Definitions only, no proofs. *)
+    Extents, indices and offsets are unbounded [N]: inside [get_index] this is exact for every constructed
+    tensor ([c19_get_index_no_overflow], via the width-checked copy [gi_loop_chk]); the product computed by
+    the constructors is assumed representable (shapes whose Π dims exceeds usize::MAX are outside the
+    property: they panic in the debug profile and wrap in the release profile).  Elements are an
+    arbitrary type [A].  Definitions only, no proofs. *)
 From Coq Require Import List NArith Bool.
 Import ListNotations.
 Local Open Scope N_scope.
